@@ -22,6 +22,7 @@ type Query struct {
 	obls  []*Obligation
 	names map[string]int
 	nsym  int
+	skip  map[int]bool // items left out when an obligation is rendered: facts of obligations the running check does not claim
 }
 
 type Obligation struct {
@@ -38,6 +39,7 @@ type Obligation struct {
 	Known  bool `json:"known,omitempty"` // the known-finding case itself: expected NOT to be provable
 	Assume bool `json:"-"`               // do not add as a fact afterwards
 	Uninterpretable string `json:"uninterpretable,omitempty"` // the clause could not be translated at this site (goal is false)
+	assumeIdx int // index in Query.items of the fact this obligation becomes for later ones (-1: none)
 }
 
 func newQuery() *Query { return &Query{names: map[string]int{}} }
